@@ -59,11 +59,15 @@ var wsAll = []string{" ", " ", " ", "\t", " ", "　", " ", "\r\n", "\v"}
 var lineSeps = []string{"\n", "\n", "\n", "\r\n", "|", "<br>", "·\n"}
 var paraSeps = []string{"\n\n", "\n\n", "\n\n", "\r\n\r\n", "\n--\n", "<P>\n</P>", "||", "¶"}
 
-// mode: 0 = stable only, 1 = mostly stable with some unstable, 2 = ascii only
+// mode: 0 = stable only, 1 = mostly stable with some unstable, 2 = ascii letters only,
+// 3 = ASCII only with CR LF among the whitespace (the one multi-rune ASCII cluster: any
+// "all bytes < 0x80, so one cluster per byte" shortcut is wrong exactly there)
 func (g *gen) cluster(mode int) string {
 	switch mode {
 	case 2:
 		return string(rune('a' + g.r.Intn(26)))
+	case 3:
+		return stableClusters[g.r.Intn(18)]
 	case 1:
 		if g.chance(0.15) {
 			return g.pick(unstableClusters)
@@ -98,6 +102,8 @@ func (g *gen) ws(mode int) string {
 			sb.WriteString(g.pick(wsAll))
 		} else if mode == 2 {
 			sb.WriteString(" ")
+		} else if mode == 3 {
+			sb.WriteString([]string{" ", " ", " ", "\t", "\r\n", "\r\n"}[g.r.Intn(6)])
 		} else {
 			sb.WriteString(g.pick(wsStable))
 		}
@@ -241,12 +247,37 @@ func (g *gen) opts(mode int) (rosed.Options, string, string) {
 		o.IndentStr = "» "
 	}
 	o.TableCharSet = g.charset()
+	if mode == 3 { // keep every byte of text and options below 0x80
+		if o.LineSeparator == "·\n" {
+			o.LineSeparator = "\r\n"
+			ls = o.LineSeparator
+		}
+		if o.ParagraphSeparator == "¶" {
+			o.ParagraphSeparator = "\r\n\r\n"
+			ps = o.ParagraphSeparator
+		}
+		if o.IndentStr == "» " {
+			o.IndentStr = "> "
+		}
+		if !isASCII(o.TableCharSet) {
+			o.TableCharSet = "#!=+"
+		}
+	}
 	o.NoTrailingLineSeparators = g.chance(0.3)
 	o.PreserveParagraphs = g.chance(0.4)
 	o.JustifyLastLine = g.chance(0.3)
 	o.TableBorders = g.chance(0.5)
 	o.TableHeaders = g.chance(0.5)
 	return o, ls, ps
+}
+
+func isASCII(s string) bool {
+	for i := 0; i < len(s); i++ {
+		if s[i] >= 0x80 {
+			return false
+		}
+	}
+	return true
 }
 
 func clusterCount(s string) int { return rosed.Edit(s).CharCount() }
@@ -443,6 +474,8 @@ func (g *gen) modeFor() int {
 		return 1
 	case 2:
 		return 2
+	case 3:
+		return 3
 	}
 	return 0
 }
